@@ -129,6 +129,12 @@ func (l *lexer) nextToken() token {
 	return l.last
 }
 
+// drain discards any remaining tokens until the lexer has finished.
+func (l *lexer) drain() {
+	for range l.tokens {
+	}
+}
+
 // tokenize kicks things off.
 func (l *lexer) tokenize() {
 	for l.state = lexData; l.state != nil; {
